@@ -76,7 +76,8 @@ theorem scalar_types_spec (m : Str) :
 (any pattern, position by position) resolve identically. -/
 theorem fromName_case (s t : Str) (h : List.Forall₂ (fun a b => a.toUpper = b.toUpper) s t) :
     fromName s = fromName t := by
-  unfold fromName
+  rw [fromName_eq_core, fromName_eq_core]
+  unfold fromNameCore
   rw [up_eq_of_forall₂ h]
 
 /-- **Well-formed names resolve exactly, case-insensitively**: every re-casing `s` of the canonical
@@ -92,16 +93,17 @@ theorem fromName_upper_lower (s : Str) :
     fromName (s.map Char.toUpper) = fromName s ∧ fromName (s.map Char.toLower) = fromName s := by
   constructor
   · show fromName (up s) = fromName s
-    unfold fromName; rw [up_up]
-  · unfold fromName; rw [up_lower]
+    rw [fromName_eq_core, fromName_eq_core]; unfold fromNameCore; rw [up_up]
+  · rw [fromName_eq_core, fromName_eq_core]; unfold fromNameCore; rw [up_lower]
 
 /-- **Total.**  Any text whatsoever resolves to a well-formed description or is rejected with
 `ValueError`; no other exception class is possible (the raised classes are read from the source). -/
 theorem fromName_total (name : Str) :
     (∃ d, fromName name = .ok d ∧ wfOut d = true) ∨ fromName name = .error .valueError := by
-  unfold fromName
-  cases h : parseType (up name) with
-  | error e => exact .inr (by rw [parseType_err h])
+  rw [fromName_eq_core]
+  unfold fromNameCore
+  cases h : parseTypeCore (up name) with
+  | error e => exact .inr (by rw [parseTypeCore_err h])
   | ok r =>
     cases r with
     | bare b => exact bareResolve_total b
@@ -111,6 +113,20 @@ theorem fromName_total (name : Str) :
                                           simp [wfOut, this]⟩
     | blob n => exact .inl ⟨_, rfl, by have : isMember litBlob = true := by decide
                                        simp [wfOut, this]⟩
+
+/-- **Total, for every Python string** — not only ASCII.  Whatever `str.upper` does to the name (it may
+change its length), whichever characters `\d`, `\s` and `\w` match, and whatever number `int()` reads from a
+run of `\d` characters — as long as `int()` raises nothing but `ValueError` — the name resolves to a
+well-formed description or is rejected with `ValueError`.  This holds for any order of the pattern blocks and
+for `match` as well as `search`; `fromNameU Chars.ascii` is `fromName` (`fromNameU_ascii_eq`). -/
+theorem fromName_total_unicode (U : Chars) (hint : ∀ ds e, U.toInt ds = .error e → e = .valueError)
+    (name : Str) :
+    (∃ d, fromNameU U name = .ok d ∧ wfOut d = true) ∨ fromNameU U name = .error .valueError :=
+  fromNameU_total U hint name
+
+/-- the Unicode-parametric model, at the ASCII tables, is the ASCII model. -/
+theorem fromNameU_ascii_eq (name : Str) : fromNameU Chars.ascii name = fromName name :=
+  fromNameU_ascii name
 
 /-- **DECIMAL parameters out of range are always rejected** — in any letter case, with zero padding,
 with whitespace after the comma and whatever follows the closing parenthesis: if the upper-cased text
@@ -154,6 +170,33 @@ theorem array_bad_element_rejected (name r : Str) (d : Desc)
       isMember e = true ∧ e ≠ litArray ∧ e ≠ litDecimal ∧ excludedElem e = false :=
   fromName_array_prefix hp hok
 
+/-- **Out-of-range DECIMAL parameters are rejected for every Python string**: whichever characters count as
+digits and whitespace and whatever `int()` reads from them (`'DECIMAL(٤٠,٢)'`, `'decımal(5,٦)'`), if the
+upper-cased name starts with `DECIMAL(<digits>,<spaces><digits>)` and the numbers read are not
+`0 ≤ s ≤ p ≤ 38`, the result is `ValueError`.  Needs only `Chars.Sane U`: `,` and `)` are not digits, no
+digit is whitespace, `int()` raises nothing but `ValueError` (all true of Python; proved for the ASCII
+tables, `ascii_tables_sane`). -/
+theorem decimal_out_of_range_rejected_unicode (U : Chars) (hU : U.Sane) (name d1 ws d2 rest : Str)
+    (hup : U.upper name = litDecimal ++ '(' :: (d1 ++ ',' :: (ws ++ (d2 ++ ')' :: rest))))
+    (h1 : d1 ≠ []) (h2 : d2 ≠ []) (hd1 : ∀ c ∈ d1, U.isD c = true) (hd2 : ∀ c ∈ d2, U.isD c = true)
+    (hws : ∀ c ∈ ws, U.isS c = true)
+    (hbad : ∀ p s, U.toInt d1 = .ok p → U.toInt d2 = .ok s → ¬ (s ≤ p ∧ p ≤ 38)) :
+    fromNameU U name = .error .valueError :=
+  fromNameU_decimal_rejected hU hup h1 h2 hd1 hd2 hws hbad
+
+/-- **Unknown, nested or parameterised ARRAY element types are rejected for every Python string**: if the
+upper-cased name starts with `ARRAY<` and resolves, what follows is literally `T>…` for a member name `T`
+other than ARRAY and DECIMAL with none of the excluded prefixes (`'ARRAY<ARRAY<ınteger>>'`, `'array<lıst>'`
+are rejected).  Needs only that `>` is in none of `\w`, `\s` and that upper-casing never loses a `<`. -/
+theorem array_bad_element_rejected_unicode (U : Chars) (hU : U.Sane) (name r : Str) (d : Desc)
+    (hp : dropPrefix? (litArray ++ ['<']) (U.upper name) = some r) (hok : fromNameU U name = .ok d) :
+    ∃ e rest, r = e ++ '>' :: rest ∧ d = { ty := .member litArray, elem := some e } ∧
+      isMember e = true ∧ e ≠ litArray ∧ e ≠ litDecimal ∧ excludedElem e = false :=
+  fromNameU_array_prefix hU hp hok
+
+/-- the ASCII tables satisfy the assumptions of the two theorems above. -/
+theorem ascii_tables_sane : Chars.Sane Chars.ascii := Chars.ascii_sane
+
 /-- **Columns carry the parameters and type codes resolve back.**  For every well-formed name, a
 column declared with it has that type and exactly those parameters / element type, `description`
 reports a type code for it, and the type code resolves back to the column's type with the column's
@@ -175,6 +218,152 @@ theorem typeCode_roundtrip (t : TName) (h : wfName t = true) :
     refine ⟨_, declare_blob (by simpa [wfName] using h), ?_⟩
     have : fromName litBlob = .ok { ty := .member litBlob } := by decide
     simp [columnRoundTrips, typeCode_blob, this]
+
+/-- **The patterns read from the source are the reference patterns.**  `rxArray`, `rxDecimal`, `rxVarchar`,
+`rxBlob` are the four regular expressions of `_parse_type` as parsed from their sources on this run (literal
+characters and greedy repeats of classes).  Matched at the start of a text they compute, for every text and
+over any Unicode tables, exactly the reference matchers the lemmas are proved about: `ARRAY<` + a non-empty
+run of `\w \s [ ] ( )` + `>`; `DECIMAL(` digits `,` spaces digits `)`; `VARCHAR[` digits `]`; `BLOB[` digits `]`.
+(A changed class, quantifier or literal makes this fail.) -/
+theorem patterns_are_reference (U : Chars) (s : Str) :
+    (matchItems U rxArray s).bind group1 = matchArrayU U s ∧
+    (matchItems U rxDecimal s).bind group2 = matchDecimalU U s ∧
+    (matchItems U rxVarchar s).bind group1 = matchBracketU U litVarchar s ∧
+    (matchItems U rxBlob s).bind group1 = matchBracketU U litBlob s :=
+  ⟨matchItems_array U s, matchItems_decimal U s, matchItems_varchar U s, matchItems_blob U s⟩
+
+/-- **Greedy matching is what `re` computes for these patterns**: in none of the four patterns can a repeat take
+a character that a following item needs (the classes are disjoint from what follows them), so the regular
+expression engine never backtracks and the greedy reading of `matchItems` is the match. -/
+theorem patterns_deterministic :
+    noBacktrack rxArray = true ∧ noBacktrack rxDecimal = true ∧
+    noBacktrack rxVarchar = true ∧ noBacktrack rxBlob = true := by decide
+
+/-- **The control flow read from the source is the reference control flow.**  `fromName` follows what
+the extractor found in `_parse_type` / `from_name` on this run — the four patterns themselves (`rxArray` …,
+see `patterns_are_reference`), the order of the four pattern blocks
+(`parseOrder`), how each pattern is applied (`anchorArray` … `anchorBlob`: `re.match` or `search`), the two
+`.upper()` calls (`upperInFromName`, `upperBareReturn`), the member and slot of the VARCHAR / BLOB branches
+(`lengthBranches`) and the order of `_precision, _scale = …` (`decimalTargets`).  On every text it equals
+`fromNameCore`: upper-case, try ARRAY / DECIMAL / VARCHAR / BLOB at the start of the text, upper-case a
+bare name, put `n` into the length.  (A pattern applied with `search`, a dropped `.upper()`, a swapped
+unpack or a length stored in another slot makes this equation — and with it the theorems above — fail.) -/
+theorem generated_control_flow_is_reference (name : Str) :
+    fromName name = fromNameCore name ∧ parseType name = parseTypeCore name :=
+  ⟨fromName_eq_core name, parseType_eq_core name⟩
+
+/-- **Explicit constructor arguments win, zero included.**  `FlatColumn(type=<name>, precision=…,
+scale=…, length=…, element_type=…)`: whatever the name says, an argument that was given — `0` too — is
+what the column carries; the tests the source uses to decide that an argument is missing (`mergeRules`,
+`decimalPrecisionTest`, `decimalScaleTest`) are `is None`, not truthiness. -/
+theorem explicit_parameters_kept (name : Str) (x : Explicit) (c : Desc) (h : declareWith name x = .ok c) :
+    (∀ v, x.precision = some v → c.precision = some v) ∧ (∀ v, x.scale = some v → c.scale = some v) ∧
+    (∀ v, x.length = some v → c.length = some v) ∧ (∀ e, x.elem = some e → c.elem = some e) := by
+  obtain ⟨d, hd, hc⟩ := declareWith_ok h
+  subst hc
+  exact merged_keeps_explicit d x
+
+/-- … and for a column declared with an `OrsoTypes` member. -/
+theorem explicit_parameters_kept_enum (m : Str) (x : Explicit) :
+    (∀ v, x.precision = some v → (declareEnum m x).precision = some v) ∧
+    (∀ v, x.scale = some v → (declareEnum m x).scale = some v) ∧
+    (declareEnum m x).length = x.length ∧ (declareEnum m x).elem = x.elem ∧ (declareEnum m x).ty = .member m :=
+  declareEnum_keeps m x
+
+/-- **A column carries what its name says.**  When nothing is given explicitly, the column has the type the
+name resolves to, its length and element type, and its precision and scale when the name has them. -/
+theorem declared_parameters_carried (name : Str) (d c : Desc) (hn : fromName name = .ok d)
+    (hm : d.ty ≠ .zero) (h : declare name = .ok c) :
+    c.ty = d.ty ∧ c.length = d.length ∧ c.elem = d.elem ∧
+    (∀ p, d.precision = some p → c.precision = some p) ∧ (∀ q, d.scale = some q → c.scale = some q) := by
+  obtain ⟨d', hd', hc⟩ := declareWith_ok h
+  rw [hn] at hd'
+  cases hd'
+  subst hc
+  exact merged_carries_parsed d hm
+
+/-- **A DECIMAL column always has both parameters**, and the defaults never replace a given value: a missing
+precision becomes the context precision (`decimalDefaultPrecision`), a missing scale `⌊¾·precision⌋`
+(`scaleNum/scaleDen`) — so `precision=0` alone gives `(0, 0)`, not `(28, 21)`. -/
+theorem decimal_defaults (x : Explicit) :
+    (declareEnum litDecimal x).precision = some (x.precision.getD decimalDefaultPrecision) ∧
+    (declareEnum litDecimal x).scale =
+      some (x.scale.getD (scaleNum * x.precision.getD decimalDefaultPrecision / scaleDen)) :=
+  declareEnum_decimal x
+
+/-- **The type-code statements read from the source compute the reference type code.**  `codeState` runs
+the `if` statements of `DataFrame.description` as the extractor found them on this run (`descProgram`: which
+tests, in which order, chained with `elif` or independent, which f-string, whether `data_precision` /
+`data_scale` are filled in).  For every typed column the result is the reference `typeCode` — the member's
+value, `DECIMAL(p,s)` for a DECIMAL, `ARRAY<T>` for an ARRAY with an element type, never `None` — and the
+precision / scale fields are filled in exactly for a DECIMAL. -/
+theorem description_statements_are_reference (c : Desc) (m : Str) (h : c.ty = .member m) :
+    ∃ code, typeCode c = some code ∧ typeCodeP c = some code ∧
+      codeState c = some { code := some code, params := decide (valueOf m = descDecimalKey) } := by
+  obtain ⟨code, h1, h2⟩ := codeState_eq c m h
+  exact ⟨code, h1, by rw [typeCodeP_eq]; exact h1, h2⟩
+
+/-- **Every entry of `description` is built from the column in the same position.**  Whatever the names and
+aliases of the columns — an alias equal to another column's name, two columns of the same name — when
+`description` returns, it has one entry per column, and the `i`-th entry carries the `i`-th column's name and
+the type code (and DECIMAL precision/scale) of the `i`-th column itself (`descLookup`). -/
+theorem description_own_column (cols : List Col) (es : List Entry) (h : describe cols = some es) :
+    es.length = cols.length ∧
+    ∀ (i : Nat) (c : Col), cols[i]? = some c →
+      ∃ e, es[i]? = some e ∧ e.name = c.name ∧ some e.code = typeCode c.desc ∧ entryOf c.name c.desc = some e := by
+  unfold describe describeWith at h
+  rw [descLookup_byPosition] at h
+  obtain ⟨hl, hi⟩ := describeFrom_byPosition cols cols 0 es (by intro j c hj; simpa using hj) h
+  refine ⟨hl, ?_⟩
+  intro i c hc
+  obtain ⟨e, he, hent⟩ := hi i c hc
+  exact ⟨e, he, (entryOf_name hent).1, (entryOf_name hent).2, hent⟩
+
+/-- Looked up by name (`find_column`: the first column bearing the name) this is false: in the schema
+`[a INTEGER aliases=[b], b DECIMAL(10,2)]` the entry for `b` reports `INTEGER` (finding C06-F02, repaired). -/
+theorem lookup_by_name_counterexample :
+    describeWith .byName
+      [{ name := ['a'], aliases := [['b']], desc := { ty := .member "INTEGER".toList } },
+       { name := ['b'], desc := { ty := .member litDecimal, precision := some 10, scale := some 2 } }]
+    = some [⟨['a'], "INTEGER".toList, none, none⟩, ⟨['b'], "INTEGER".toList, none, none⟩] := by decide
+
+/-- **Type codes of a whole schema resolve back, column by column.**  Take any list of columns, each
+declared with a well-formed type name, under arbitrary names and aliases (collisions included).  Then
+`description` returns one entry per column, the `i`-th entry bears the `i`-th column's name, the `i`-th column
+carries exactly the parameters of its type name, and the `i`-th type code resolves back, through `from_name`,
+to that column's type, precision, scale and element type. -/
+theorem description_roundtrip (specs : List (Str × List Str × TName)) (cols : List Col)
+    (hwf : ∀ sp ∈ specs, wfName sp.2.2 = true)
+    (hdecl : List.Forall₂ (fun sp c => c.name = sp.1 ∧ c.aliases = sp.2.1 ∧
+      declare (render sp.2.2) = .ok c.desc) specs cols) :
+    ∃ es, describe cols = some es ∧ es.length = cols.length ∧
+      ∀ (i : Nat) (sp : Str × List Str × TName) (c : Col), specs[i]? = some sp → cols[i]? = some c →
+        ∃ e, es[i]? = some e ∧ e.name = sp.1 ∧ some e.code = typeCode c.desc ∧
+          columnRoundTrips sp.2.2 c.desc = true := by
+  -- every column round-trips on its own
+  have hrt : ∀ (i : Nat) (sp : Str × List Str × TName) (c : Col), specs[i]? = some sp → cols[i]? = some c →
+      c.name = sp.1 ∧ columnRoundTrips sp.2.2 c.desc = true := by
+    intro i sp c hs hc
+    obtain ⟨hn, _, hd⟩ := forall₂_getElem? hdecl hs hc
+    obtain ⟨c', hc', hr⟩ := typeCode_roundtrip sp.2.2 (hwf sp (List.mem_of_getElem? hs))
+    rw [hd] at hc'
+    cases hc'
+    exact ⟨hn, hr⟩
+  have hsome : ∀ c ∈ cols, (entryOf c.name c.desc).isSome = true := by
+    intro c hc
+    obtain ⟨i, hi⟩ := List.getElem?_of_mem hc
+    obtain ⟨sp, hs⟩ := forall₂_getElem?_right hdecl hi
+    have := (hrt i sp c hs hi).2
+    exact entryOf_isSome (columnRoundTrips_code this)
+  obtain ⟨es, hes⟩ := describeFrom_byPosition_some cols cols 0 (by intro j c hj; simpa using hj) hsome
+  have hdesc : describe cols = some es := by
+    unfold describe describeWith; rw [descLookup_byPosition]; exact hes
+  obtain ⟨hl, hown⟩ := description_own_column cols es hdesc
+  refine ⟨es, hdesc, hl, ?_⟩
+  intro i sp c hs hc
+  obtain ⟨e, he, hname, hcode, _⟩ := hown i c hc
+  obtain ⟨hn, hr⟩ := hrt i sp c hs hc
+  exact ⟨e, he, by rw [hname, hn], hcode, hr⟩
 
 /-! Non-vacuity: the hypotheses are met by concrete, non-trivial inputs, and the rejection theorems
 reject concrete names. -/
